@@ -1,4 +1,5 @@
 import DroopModel
+import DroopModel.Json
 open Droop
 
 /-! line-protocol driver (scratch prototype) -/
@@ -168,6 +169,24 @@ def reportWith {α} (A : Arith α) (strV : α → String) (c : Case) (msgs : Lis
     | none =>
       let s' := s.logAct A "end" "Count Complete" []
       hexOf (reportActions A strV (fun cid => s!"C{cid}") (methodOf c.rule) (c.cands.map (·.1)) c.nballots msgs s'.acts.reverse)
+
+def jsonWith {α} (A : Arith α) (strV : α → String) (c : Case) (msgs : List String) : String :=
+  match runRuleSt' A c (withAddLogs (initState A c)) with
+  | none => "FUEL"
+  | some s =>
+    match s.crash with
+    | some k => "CRASH " ++ k
+    | none =>
+      let s' := s.logAct A "end" "Count Complete" []
+      hexOf (jsonActions strV (methodOf c.rule) msgs s'.acts.reverse)
+
+def runJson (display : Nat) (c : Case) (msgs : List String) : String :=
+  match c.arith with
+  | "fixed" => jsonWith (fixedArith c.p) (strFixed c.p display) c msgs
+  | "integer" => jsonWith (fixedArith 0) (strFixed 0 display) c msgs
+  | "guarded" => jsonWith (guardedArith c.p c.g) (strGuarded c.p c.g display) c msgs
+  | "rational" => jsonWith rationalArith (strRational display) c msgs
+  | a => "UNKNOWN-ARITH " ++ a
 
 def runReport (display : Nat) (c : Case) (msgs : List String) : String :=
   match c.arith with
@@ -391,6 +410,10 @@ partial def loopIO (h : IO.FS.Stream) : IO Unit := do
   | "REPORT" :: d :: rest =>
     match d.toNat?, parseCase rest, implS with
     | some d, some c, some ms => IO.println (runReport d c ((ms.trimAscii.toString.splitOn ",").filterMap unhex))
+    | _, _, _ => IO.println "BAD-INPUT"
+  | "JSON" :: d :: rest =>
+    match d.toNat?, parseCase rest, implS with
+    | some d, some c, some ms => IO.println (runJson d c ((ms.trimAscii.toString.splitOn ",").filterMap unhex))
     | _, _, _ => IO.println "BAD-INPUT"
   | "DUMP" :: d :: rest =>
     match d.toNat?, parseCase rest with
